@@ -215,6 +215,65 @@ func concurrent(mqtt bool) (string, map[string]interface{}) {
 	return vlib.App("CConc", vlib.Bool(mqtt), vlib.List(ops), obsTerm(t)), map[string]interface{}{"mqtt": mqtt, "goroutines": len(subs), "ops": len(ops)}
 }
 
+// contended: many goroutines subscribe / unsubscribe the SAME few filters, so that pruning of a
+// branch races with another subscriber walking into it.  Each subscriber's own operations are
+// sequential, so the final set (last operation per (filter, subscriber)) and hence the pruned trie
+// are determined whatever the interleaving.
+func contended(mqtt bool) (string, map[string]interface{}) {
+	r := cfg.Rng
+	var t *message.Trie
+	if mqtt {
+		t = message.NewTrieMQTT()
+	} else {
+		t = message.NewTrie()
+	}
+	filters := []message.Ssid{{7, 11, 12, 13}, {7, 11, 12}, {7, 11, 12, 13, 11}}
+	type op struct {
+		sub bool
+		f   int
+	}
+	const per = 1500
+	scripts := make([][]op, len(subs))
+	for k := range scripts {
+		for i := 0; i < per; i++ {
+			scripts[k] = append(scripts[k], op{r.Intn(2) == 0, r.Intn(len(filters))})
+		}
+	}
+	var wg sync.WaitGroup
+	for k := range scripts {
+		wg.Add(1)
+		go func(k int) {
+			defer wg.Done()
+			for _, o := range scripts[k] {
+				if o.sub {
+					t.Subscribe(filters[o.f], subs[k])
+				} else {
+					t.Unsubscribe(filters[o.f], subs[k])
+				}
+			}
+		}(k)
+	}
+	wg.Wait()
+	var ops []string
+	for k := range scripts {
+		// only the last operation per filter matters for the final state
+		last := map[int]op{}
+		for _, o := range scripts[k] {
+			last[o.f] = o
+		}
+		for f := 0; f < len(filters); f++ {
+			if o, ok := last[f]; ok {
+				c := "TUnsubQ"
+				if o.sub {
+					c = "TSubQ"
+				}
+				ops = append(ops, vlib.App(c, ssidTerm(filters[f]), vlib.N(uint64(hash.OfString(subs[k].id)))))
+			}
+		}
+	}
+	return vlib.App("CConc", vlib.Bool(mqtt), vlib.List(ops), obsTerm(t)), map[string]interface{}{"mqtt": mqtt, "goroutines": len(subs), "ops_each": per, "contended": true}
+}
+
 func main() {
 	cfg = vlib.ParseFlags()
 	for i := 0; i < 6; i++ {
@@ -234,6 +293,10 @@ func main() {
 	for i := 0; i < 10*cfg.Mult; i++ {
 		t, h := concurrent(i%2 == 1)
 		sh.Add(t, h, "concurrent", true)
+	}
+	for i := 0; i < 12*cfg.Mult; i++ {
+		t, h := contended(i%2 == 1)
+		sh.Add(t, h, "concurrent-contended", true)
 	}
 	sh.Finish("histories of subscribe / unsubscribe / lookup over 6 subscribers, contract 7 (rarely 8), levels {a,b,c,+,#} depth 0-3, share groups g0-g2, duplicates and repeated removals on purpose, both matcher modes, closing removal of everything held; after every operation Count, node count and the stored pairs; concurrent: 6 goroutines x 30 operations, final state vs model; non-trivial: all")
 }
